@@ -164,7 +164,7 @@ static void enumerate(const Input &in, bool counting) {
             _exit(0);
         }
         int st = 0; waitpid(pid, &st, 0);
-        if (WIFEXITED(st) && WEXITSTATUS(st) == 0) break;
+        if (WIFEXITED(st) && WEXITSTATUS(st) == 0) { pos = ks.size(); break; }
         long j = g_sh->cur; long k = ks[(size_t)j];
         if (WIFEXITED(st) && WEXITSTATUS(st) == 3 && g_sh->contract[0]) {
             std::string c = (const char *)g_sh->contract; g_sh->contract[0] = 0; std::string sig = "C18:api_contract_after_fault:" + c.substr(c.find(' ') + 1);
@@ -177,6 +177,8 @@ static void enumerate(const Input &in, bool counting) {
         pos = (size_t)j + 1;
     }
     unlink(logpath.c_str());
+    // non-trivial cases, counted as what they are: (input, k) pairs whose failed allocation lies after parser creation
+    { uint64_t h = vc::fnv1a(in.scn.text()); for (size_t j = 0; j < pos && j < ks.size(); j++) if (ks[j] > base.allocs_at_first_call) g_stats.nt(vc::mix(h + (uint64_t)ks[j])); }
 }
 
 static std::vector<std::string> capture_files() {
@@ -205,7 +207,6 @@ static void campaign() {
     });
     g_stats.evaluations += (uint64_t)g_sh->done; g_stats.cls("runs_with_injected_fault", (uint64_t)g_sh->injected); g_stats.cls("fault_in_mid_stream_allocation", (uint64_t)g_sh->midstream);
     g_stats.cls("runs_in_which_a_later_call_returned_ERROR", (uint64_t)g_sh->after_fault_errors); g_stats.cls("runs_in_which_parser_creation_failed", (uint64_t)g_sh->session_failed);
-    for (long i = 0; i < g_sh->midstream && i < 2000000; i++) g_stats.nt(vc::mix((uint64_t)i * 1000003 + (uint64_t)A.shard * 7919 + A.seed)); // mid-stream fault runs are distinct (input, k) pairs by construction
 }
 
 static int replay(const std::string &path) {
